@@ -357,12 +357,12 @@ Next ==
         p \in (IF F("preferidle") THEN BOOLEAN ELSE {FALSE}),
         g \in (IF F("fail") THEN BOOLEAN ELSE {TRUE}) : SyncEnter(w, k, p, g)
   \/ \E w \in Workers, r \in {"assigned", "drainchange", "timeout"} : SyncWake(w, r)
-  \/ \E o \in OpId : RemoveOperation(o)
+  \/ ~F("nocleanup") /\ \E o \in OpId : RemoveOperation(o)
   \/ F("kill") /\ \E o \in OpId : KillOperation(o)
   \/ F("drain") /\ \E w \in Workers : AddDrain(w) \/ RemoveDrain(w)
   \/ F("terminate") /\ \E w \in Workers : TerminateWorker(w)
-  \/ \E w \in Workers : RemoveStaleWorker(w)
-  \/ RemoveQueue
+  \/ ~F("nocleanup") /\ \E w \in Workers : RemoveStaleWorker(w)
+  \/ ~F("nocleanup") /\ RemoveQueue
 
 Internal ==
   \/ \E c \in Clients : StreamSend(c) \/ StreamWake(c) \/ StreamFin(c)
